@@ -8,6 +8,7 @@ import Goyang.Props.C04
 import Goyang.Props.C02
 import Goyang.Lemmas.AugPosLoad
 import Goyang.Lemmas.AugmentKU
+import Goyang.Lemmas.AugPosAny
 /-
 C07, bridge to `processAll` — the hypotheses `PhaseInput` and `NoDupNames` of Props/C07.lean are
 discharged for the state with which `processAll` really enters the augment phase.
@@ -66,10 +67,16 @@ encodings of Unicode texts without the four constructs C02 excludes (`Admissible
 top level and below every statement, stand at pairwise different (line, col)),
 `augPosDistinct_of_loadTexts` (transport through the refinement of the byte-level parser, `toStmt?` and
 `Registry.add`).  Every `_processAll` theorem is restated as `_loadTexts` for such registries, with
-`AugArgsPlain` as the only input hypothesis left.  NOT proved: the same for texts outside C02's claim
-(ill-formed UTF-8, a comment opener inside an unquoted token, the three excluded double-quoted-string
-shapes): the byte-level lexer model is related to the reference reader for admissible texts only, and
-no direct proof that the lexer model's token positions increase has been made.
+`AugArgsPlain` as the only input hypothesis left.  The same for texts OUTSIDE C02's claim (ill-formed
+UTF-8, a comment opener inside an unquoted token, the three excluded double-quoted-string shapes) is
+proved too (2026-09-29, third session), by a direct proof on the byte-level lexer model that does not go
+through the reference reader: `lexer_tokens_increase_anyText` (for every byte string the non-error
+tokens of the lexer model stand at strictly increasing (line, col)), `parsed_siblings_increase_anyText`
+(the generic parser keeps that order among sibling statements), `augPosDistinct_anyTexts`
+(`AugPosDistinct` of EVERY registry `loadTexts` produces), and every `_loadTexts` theorem restated
+without `AdmissibleTexts` as `_anyTexts` (section "`AugPosDistinct` for ALL byte strings").
+`AugPosDistinct` is therefore no hypothesis on loaded input any more; `AugArgsPlain` is the only one left
+(not droppable: the `..` example).
 
 The error set with pending entries that carry errors of their own (2026-09-29): `phaseStart_keysUnique`
 (every tree and every pending augment entry has unique keys, errors or not: C04's traversal repeated
@@ -667,6 +674,181 @@ theorem augment_error_set_order_independent_loadTexts (texts : List (List UInt8 
   augment_error_set_order_independent_processAll _ opts plug (loadedShape_loadTexts texts)
     (augPosDistinct_of_loadTexts texts hadm) hplain s order h fuel2 mods2 s2 hforest hpend hn2 hcov2 hfuel2
 
+/-! ### `AugPosDistinct` for ALL byte strings: the `_anyTexts` theorems
+
+The direct proof on the byte-level lexer model (2026-09-29, `Lemmas/AugPosLex.lean`,
+`Lemmas/AugPosParse.lean`, `Lemmas/AugPosLoadAny.lean`, `Lemmas/AugPosAny.lean`).  For EVERY byte string
+(ill-formed UTF-8, comment openers inside tokens, every quoted-string shape) the tokens the lexer
+model hands the parser — error tokens aside, which the parser never sees — stand at strictly
+increasing (line, col) in lexicographic order (`lexer_tokens_increase_anyText`); the generic parser
+builds statements at the positions of their keyword tokens, pulled in that order (push-back keeps
+it), so sibling statements — at the top level and below every statement, the sentinel `ignoreMe`
+of a syntax error aside — stand at strictly increasing positions (`parsed_siblings_increase_anyText`);
+`toStmt?` and `Registry.add` keep them, hence `AugPosDistinct` holds of EVERY registry `loadTexts` can
+produce (`augPosDistinct_anyTexts`).  The `_loadTexts` theorems are restated without `AdmissibleTexts`
+as `_anyTexts`; `AugArgsPlain` is the only input hypothesis left.
+
+Two facts about the model (and the Go code it transliterates) found on the way:
+* the cursor (line, col) is NOT a function of the byte offset: `peek` before a newline goes through
+  `backup`, which resets `col` to 0 (and `line` back); so "offset ↦ (line, col) is monotone" is false of
+  the lexer state in general and the proof does not go through offsets.  It carries the invariant
+  "the cursor stands after the last token, or the next rune is a newline and the last token is on
+  this or an earlier line" (`Lemmas.AugPosLex.F`): token starts are read off the cursor only after
+  white space has been skipped, where it is exact again.  Ill-formed bytes are no problem: every
+  decoded rune, ill-formed or not, advances `col` by one (`next`) — the suspected witness (a
+  multi-byte ill-formed sequence that does not advance the column) does not exist.
+* ERROR tokens do share a position with the following token (an invalid escape inside a
+  double-quoted string queues an error token at the string's own position, then the string): the
+  statement is about the tokens the parser sees (`skipErrors` drops error tokens), see the example. -/
+
+/-- **The lexer model hands the parser tokens at strictly increasing (line, col), for every byte
+string**: `Lemmas.AugPosLex.LInv q l` — every token the lexer state `l` still has queued or will still
+read stands strictly after `q`, in strictly increasing order — holds initially with `q = (0, 0)`, and a
+token pulled under `LInv q` stands after `q` and re-establishes `LInv` at its own position
+(`Lemmas.AugPosOrd.SrcMono`). -/
+theorem lexer_tokens_increase_anyText (text file : List UInt8) :
+    Lemmas.AugPosOrd.SrcMono Parse.lexSource Lemmas.AugPosLex.LInv ∧
+    Lemmas.AugPosLex.LInv (0, 0) (Lex.newLexer text file) :=
+  ⟨Lemmas.AugPosLex.lexSource_mono, Lemmas.AugPosLex.newLexer_inv text file⟩
+
+/-- **Sibling statements of ANY parsed text stand at strictly increasing positions** (byte-level
+parser model, every byte string): the top-level statements and the substatements of every statement,
+at any depth, are pairwise in the relation "the later one is `ignoreMe` or stands strictly after the
+earlier one" (`Lemmas.AugPosOrd.ForestOK`). -/
+theorem parsed_siblings_increase_anyText (name text : List UInt8) (forest : List Parse.Statement)
+    (h : Parse.parseText name text = .ok forest) : Lemmas.AugPosOrd.ForestOK forest :=
+  Lemmas.AugPosAny.parseText_forestOK name text forest h
+
+/-- **`AugPosDistinct` holds of every registry loaded from raw texts, whatever the bytes are.** -/
+theorem augPosDistinct_anyTexts (texts : List (List UInt8 × List UInt8)) : AugPosDistinct (loadTexts texts).1 :=
+  Lemmas.AugPosAny.augPosDistinct_loadTexts_any texts
+
+/-- `PhaseInput` for registries loaded from ANY texts (no admissibility hypothesis): `AugArgsPlain` is the only hypothesis left. -/
+theorem phaseInput_holds_anyTexts (texts : List (List UInt8 × List UInt8))
+    (opts : Opts) (plug : Plug) (hplain : AugArgsPlain (loaded texts))
+    (s : PState) (order : List Nat) (h : phaseStart (loaded texts) opts plug = some (s, order)) :
+    PhaseInput (loaded texts) s :=
+  phaseInput_holds _ opts plug (loadedShape_loadTexts texts) (augPosDistinct_anyTexts texts) hplain s order h
+
+/-- `augment_reported_processAll` ((f) "… or reported") for registries loaded from ANY texts (no admissibility hypothesis). -/
+theorem augment_reported_anyTexts (texts : List (List UInt8 × List UInt8))
+    (opts : Opts) (plug : Plug) (hplain : AugArgsPlain (loaded texts)) :
+    (phaseStart (loaded texts) opts plug = none →
+      ∃ errs, errs ≠ [] ∧ (processAll (loaded texts) opts plug).errors = canonErrs errs) ∧
+    (∀ s order, phaseStart (loaded texts) opts plug = some (s, order) → allErrs s.forest = [] ∧
+      (let fuel := s.pending.foldl (fun n p => n + p.2.length) 0 + 2
+       let ph := phaseR (Res.ofReg (loaded texts)) order fuel s
+       (∀ id, ∀ a ∈ s.pendingOf id,
+         (id, a) ∈ ph.2.1.map Ev.key ∨ (id, a) ∈ ph.2.2.map Ev.key ∨ (processAll (loaded texts) opts plug).errors ≠ []) ∧
+       (∀ ev ∈ ph.2.1,
+         (¬ (absEv (Res.ofReg (loaded texts)) s.forest ev).roots.Nodup ∨
+           (absEv (Res.ofReg (loaded texts)) s.forest ev).Collides (viewOf ev.before)) →
+         (processAll (loaded texts) opts plug).errors ≠ []))) :=
+  augment_reported_processAll _ opts plug (loadedShape_loadTexts texts) (augPosDistinct_anyTexts texts) hplain
+
+/-- `clean_process_applied_all` for registries loaded from ANY texts (no admissibility hypothesis). -/
+theorem clean_process_applied_all_anyTexts (texts : List (List UInt8 × List UInt8))
+    (opts : Opts) (plug : Plug) (hplain : AugArgsPlain (loaded texts))
+    (hclean : (processAll (loaded texts) opts plug).errors = []) :
+    ∃ s order, phaseStart (loaded texts) opts plug = some (s, order) ∧
+      (let fuel := s.pending.foldl (fun n p => n + p.2.length) 0 + 2
+       let ph := phaseR (Res.ofReg (loaded texts)) order fuel s
+       (∀ id, ∀ a ∈ s.pendingOf id, (id, a) ∈ ph.2.1.map Ev.key ∨ (id, a) ∈ ph.2.2.map Ev.key) ∧
+       (∀ ev ∈ ph.2.1, (absEv (Res.ofReg (loaded texts)) s.forest ev).roots.Nodup ∧
+         ¬ (absEv (Res.ofReg (loaded texts)) s.forest ev).Collides (viewOf ev.before))) :=
+  clean_process_applied_all _ opts plug (loadedShape_loadTexts texts) (augPosDistinct_anyTexts texts) hplain hclean
+
+/-- `augment_exactly_once_processAll` ((e)) for registries loaded from ANY texts (no admissibility hypothesis). -/
+theorem augment_exactly_once_anyTexts (texts : List (List UInt8 × List UInt8))
+    (opts : Opts) (plug : Plug) (hplain : AugArgsPlain (loaded texts)) (s : PState) (order : List Nat)
+    (h : phaseStart (loaded texts) opts plug = some (s, order)) :
+    let fuel := s.pending.foldl (fun n p => n + p.2.length) 0 + 2
+    ∀ id, ∀ a ∈ s.pendingOf id,
+      (a ∉ (augmentLoop (loaded texts) fuel order.toArray s).2.pendingOf id ↔
+        (absAug (Res.ofReg (loaded texts)) s.forest id a).Applicable
+          (viewOf (augmentLoop (loaded texts) fuel order.toArray s).2.forest)) :=
+  augment_exactly_once_processAll _ opts plug (loadedShape_loadTexts texts) (augPosDistinct_anyTexts texts)
+    hplain s order h
+
+/-- `augment_loop_confluent_processAll` ((d)) for registries loaded from ANY texts (no admissibility hypothesis). -/
+theorem augment_loop_confluent_anyTexts (texts : List (List UInt8 × List UInt8))
+    (opts : Opts) (plug : Plug) (hplain : AugArgsPlain (loaded texts)) (s : PState) (order : List Nat)
+    (h : phaseStart (loaded texts) opts plug = some (s, order))
+    (fuel2 : Nat) (mods2 : Array Nat) (s2 : PState)
+    (hforest : s2.forest = s.forest) (hpend : ∀ id a, a ∈ s2.pendingOf id ↔ a ∈ s.pendingOf id)
+    (hn2 : NodupPending s2) (hcov2 : Cover s2 mods2) (hfuel2 : mu s2 < fuel2) :
+    let fuel := s.pending.foldl (fun n p => n + p.2.length) 0 + 2
+    (∀ er, FVisErr (augmentLoop (loaded texts) fuel order.toArray s).2.forest er → er.cls ≠ "duplicate-node") →
+    viewOf (augmentLoop (loaded texts) fuel2 mods2 s2).2.forest =
+      viewOf (augmentLoop (loaded texts) fuel order.toArray s).2.forest ∧
+    (∀ id a, a ∈ (augmentLoop (loaded texts) fuel2 mods2 s2).2.pendingOf id ↔
+      a ∈ (augmentLoop (loaded texts) fuel order.toArray s).2.pendingOf id) :=
+  augment_loop_confluent_processAll _ opts plug (loadedShape_loadTexts texts) (augPosDistinct_anyTexts texts)
+    hplain s order h fuel2 mods2 s2 hforest hpend hn2 hcov2 hfuel2
+
+/-- `augment_order_independent_processAll` for registries loaded from ANY texts (no admissibility hypothesis). -/
+theorem augment_order_independent_anyTexts (texts : List (List UInt8 × List UInt8))
+    (opts : Opts) (plug : Plug) (hplain : AugArgsPlain (loaded texts)) (s : PState) (order : List Nat)
+    (h : phaseStart (loaded texts) opts plug = some (s, order)) (fuel2 : Nat) (mods2 : Array Nat)
+    (hcov2 : Cover s mods2) (hfuel2 : mu s < fuel2) :
+    let fuel := s.pending.foldl (fun n p => n + p.2.length) 0 + 2
+    (∀ er, FVisErr (augmentLoop (loaded texts) fuel order.toArray s).2.forest er → er.cls ≠ "duplicate-node") →
+    viewOf (augmentLoop (loaded texts) fuel2 mods2 s).2.forest =
+      viewOf (augmentLoop (loaded texts) fuel order.toArray s).2.forest ∧
+    (∀ id a, a ∈ (augmentLoop (loaded texts) fuel2 mods2 s).2.pendingOf id ↔
+      a ∈ (augmentLoop (loaded texts) fuel order.toArray s).2.pendingOf id) :=
+  augment_order_independent_processAll _ opts plug (loadedShape_loadTexts texts) (augPosDistinct_anyTexts texts)
+    hplain s order h fuel2 mods2 hcov2 hfuel2
+
+/-- `augment_clean_iff_processAll` ((d′)) for registries loaded from ANY texts (no admissibility hypothesis). -/
+theorem augment_clean_iff_anyTexts (texts : List (List UInt8 × List UInt8))
+    (opts : Opts) (plug : Plug) (hplain : AugArgsPlain (loaded texts)) (s : PState) (order : List Nat)
+    (h : phaseStart (loaded texts) opts plug = some (s, order))
+    (fuel2 : Nat) (mods2 : Array Nat) (s2 : PState)
+    (hforest : s2.forest = s.forest) (hpend : ∀ id a, a ∈ s2.pendingOf id ↔ a ∈ s.pendingOf id)
+    (hn2 : NodupPending s2) (hcov2 : Cover s2 mods2) (hfuel2 : mu s2 < fuel2) :
+    let fuel := s.pending.foldl (fun n p => n + p.2.length) 0 + 2
+    allErrs (augmentLoop (loaded texts) fuel order.toArray s).2.forest = [] ↔
+      allErrs (augmentLoop (loaded texts) fuel2 mods2 s2).2.forest = [] :=
+  augment_clean_iff_processAll _ opts plug (loadedShape_loadTexts texts) (augPosDistinct_anyTexts texts)
+    hplain s order h fuel2 mods2 s2 hforest hpend hn2 hcov2 hfuel2
+
+/-- `augment_error_list_order_independent_processAll` ((d′)) for registries loaded from ANY texts (no admissibility hypothesis). -/
+theorem augment_error_list_order_independent_anyTexts (texts : List (List UInt8 × List UInt8))
+    (opts : Opts) (plug : Plug) (hplain : AugArgsPlain (loaded texts))
+    (s : PState) (order : List Nat) (h : phaseStart (loaded texts) opts plug = some (s, order))
+    (fuel2 : Nat) (mods2 : Array Nat) (s2 : PState)
+    (hforest : s2.forest = s.forest) (hpend : ∀ id a, a ∈ s2.pendingOf id ↔ a ∈ s.pendingOf id)
+    (hn2 : NodupPending s2) (hcov2 : Cover s2 mods2) (hfuel2 : mu s2 < fuel2)
+    (hbodies : ∀ id, ∀ a ∈ s.pendingOf id, a.allErrors = []) :
+    let fuel := s.pending.foldl (fun n p => n + p.2.length) 0 + 2
+    (∀ er ∈ allErrs (augmentLoop (loaded texts) fuel order.toArray s).2.forest, er.cls ≠ "duplicate-node") →
+    (∀ er, er ∈ allErrs (augmentLoop (loaded texts) fuel2 mods2 s2).2.forest ↔
+      er ∈ allErrs (augmentLoop (loaded texts) fuel order.toArray s).2.forest) ∧
+    canonErrs (allErrs (augmentLoop (loaded texts) fuel2 mods2 s2).2.forest) =
+      canonErrs (allErrs (augmentLoop (loaded texts) fuel order.toArray s).2.forest) ∧
+    (∀ er ∈ allErrs (augmentLoop (loaded texts) fuel2 mods2 s2).2.forest, er.cls ≠ "duplicate-node") :=
+  augment_error_list_order_independent_processAll _ opts plug (loadedShape_loadTexts texts)
+    (augPosDistinct_anyTexts texts) hplain s order h fuel2 mods2 s2 hforest hpend hn2 hcov2 hfuel2 hbodies
+
+/-- `augment_error_set_order_independent_processAll` ((d′), pending entries with errors of their own
+included) for registries loaded from ANY texts (no admissibility hypothesis). -/
+theorem augment_error_set_order_independent_anyTexts (texts : List (List UInt8 × List UInt8))
+    (opts : Opts) (plug : Plug) (hplain : AugArgsPlain (loaded texts))
+    (s : PState) (order : List Nat) (h : phaseStart (loaded texts) opts plug = some (s, order))
+    (fuel2 : Nat) (mods2 : Array Nat) (s2 : PState)
+    (hforest : s2.forest = s.forest) (hpend : ∀ id a, a ∈ s2.pendingOf id ↔ a ∈ s.pendingOf id)
+    (hn2 : NodupPending s2) (hcov2 : Cover s2 mods2) (hfuel2 : mu s2 < fuel2) :
+    let fuel := s.pending.foldl (fun n p => n + p.2.length) 0 + 2
+    (∀ er ∈ allErrs (augmentLoop (loaded texts) fuel order.toArray s).2.forest, er.cls ≠ "duplicate-node") →
+    (∀ er, er ∈ allErrs (augmentLoop (loaded texts) fuel2 mods2 s2).2.forest ↔
+      er ∈ allErrs (augmentLoop (loaded texts) fuel order.toArray s).2.forest) ∧
+    canonErrs (allErrs (augmentLoop (loaded texts) fuel2 mods2 s2).2.forest) =
+      canonErrs (allErrs (augmentLoop (loaded texts) fuel order.toArray s).2.forest) ∧
+    (∀ er ∈ allErrs (augmentLoop (loaded texts) fuel2 mods2 s2).2.forest, er.cls ≠ "duplicate-node") :=
+  augment_error_set_order_independent_processAll _ opts plug (loadedShape_loadTexts texts)
+    (augPosDistinct_anyTexts texts) hplain s order h fuel2 mods2 s2 hforest hpend hn2 hcov2 hfuel2
+
 /-! ### non-vacuity: the input predicates hold of a concrete two-module set with an augment -/
 section Examples
 open Goyang.Props.C04.Ex
@@ -842,6 +1024,73 @@ example : ((phaseStart (loaded textsB) {} plug).map fun x =>
       (x.1.pending.map fun p => (p.1, p.2.length), x.2,
         x.1.pending.all fun p => p.2.all fun a => a.allErrors.isEmpty)) =
     some ([(0, 2)], [0], true) := by decide +kernel
+
+/-! ### registries loaded from texts OUTSIDE C02's claim: the hypotheses of the `_anyTexts` theorems hold -/
+
+/-- `module b{namespace u;prefix b;description "` — then the single byte 0xFF (ill-formed UTF-8) — -/
+def textDpre : List Char :=
+  ['m', 'o', 'd', 'u', 'l', 'e', ' ', 'b', '{', 'n', 'a', 'm', 'e', 's', 'p', 'a', 'c', 'e', ' ', 'u', ';',
+   'p', 'r', 'e', 'f', 'i', 'x', ' ', 'b', ';', 'd', 'e', 's', 'c', 'r', 'i', 'p', 't', 'i', 'o', 'n', ' ',
+   '"']
+/-- `";container c{}augment /b:c{leaf w{type string;}}` ⏎ ⇥ `augment /b:c{leaf v{type string;}}}` -/
+def textDpost : List Char :=
+  ['"', ';', 'c', 'o', 'n', 't', 'a', 'i', 'n', 'e', 'r', ' ', 'c', '{', '}', 'a', 'u', 'g', 'm', 'e', 'n',
+   't', ' ', '/', 'b', ':', 'c', '{', 'l', 'e', 'a', 'f', ' ', 'w', '{', 't', 'y', 'p', 'e', ' ', 's', 't',
+   'r', 'i', 'n', 'g', ';', '}', '}', '\n', '\t', 'a', 'u', 'g', 'm', 'e', 'n', 't', ' ', '/', 'b', ':', 'c',
+   '{', 'l', 'e', 'a', 'f', ' ', 'v', '{', 't', 'y', 'p', 'e', ' ', 's', 't', 'r', 'i', 'n', 'g', ';', '}',
+   '}', '}']
+/-- a text with ILL-FORMED UTF-8 inside a description and two augment statements -/
+def textD : List UInt8 := Goyang.Props.C02.utf8 textDpre ++ [0xFF] ++ Goyang.Props.C02.utf8 textDpost
+def textsD : List (List UInt8 × List UInt8) := [([98], textD)]
+
+set_option maxRecDepth 100000 in
+/-- `Modules.Parse` accepts it (the lexer reads the byte as U+FFFD and the description carries its
+encoding, as in Go); the two augment statements stand at 1:60 and 2:2 -/
+example : ((loaded textsD).mods.map fun m => (m.stmt.all "augment").map fun s => (s.line, s.col, s.arg)) =
+    [[(1, 60, "/b:c"), (2, 2, "/b:c")]] ∧
+    ((loaded textsD).mods.map fun m => (m.stmt.all "description").map fun s => s.arg.toList.map Char.toNat) =
+    [[[65533]]] := by decide +kernel
+
+set_option maxRecDepth 100000 in
+example : AugArgsPlain (loaded textsD) := by
+  intro m hm s hs
+  have hall : ∀ m ∈ (loaded textsD).mods, ∀ s ∈ m.stmt.all "augment", s.arg = "/b:c" := by decide +kernel
+  rw [hall m hm s hs]
+  exact plainAbsArg_example_b
+
+set_option maxRecDepth 100000 in
+/-- `processAll` enters the augment phase on it with two pending augments in the row of `b` -/
+example : ((phaseStart (loaded textsD) {} plug).map fun x => (x.1.pending.map fun p => (p.1, p.2.length), x.2)) =
+    some ([(0, 2)], [0]) := by decide +kernel
+
+/-- `module b{namespace u;prefix b;description a//b;container c{}augment /b:c{leaf w{type string;}}` ⏎ ⇥
+`augment /b:c{leaf v{type string;}}}`: a comment opener inside an unquoted token (outside C02's claim) -/
+def textC : List Char :=
+  ['m', 'o', 'd', 'u', 'l', 'e', ' ', 'b', '{', 'n', 'a', 'm', 'e', 's', 'p', 'a', 'c', 'e', ' ', 'u', ';',
+   'p', 'r', 'e', 'f', 'i', 'x', ' ', 'b', ';', 'd', 'e', 's', 'c', 'r', 'i', 'p', 't', 'i', 'o', 'n', ' ',
+   'a', '/', '/', 'b', ';', 'c', 'o', 'n', 't', 'a', 'i', 'n', 'e', 'r', ' ', 'c', '{', '}', 'a', 'u', 'g',
+   'm', 'e', 'n', 't', ' ', '/', 'b', ':', 'c', '{', 'l', 'e', 'a', 'f', ' ', 'w', '{', 't', 'y', 'p', 'e',
+   ' ', 's', 't', 'r', 'i', 'n', 'g', ';', '}', '}', '\n', '\t', 'a', 'u', 'g', 'm', 'e', 'n', 't', ' ', '/',
+   'b', ':', 'c', '{', 'l', 'e', 'a', 'f', ' ', 'v', '{', 't', 'y', 'p', 'e', ' ', 's', 't', 'r', 'i', 'n',
+   'g', ';', '}', '}', '}']
+def textsC : List (List UInt8 × List UInt8) := [([98], Goyang.Props.C02.utf8 textC)]
+
+set_option maxRecDepth 100000 in
+/-- not admissible, accepted by `Modules.Parse`, the augment statements at 1:61 and 2:2 -/
+example : Spec.Parse.Admissible textC = false ∧
+    ((loaded textsC).mods.map fun m => (m.stmt.all "augment").map fun s => (s.line, s.col, s.arg)) =
+    [[(1, 61, "/b:c"), (2, 2, "/b:c")]] := ⟨by decide, by decide +kernel⟩
+
+/-- the cursor is not a function of the offset: after the token `ab` of `ab⏎` the lexer stands at
+offset 2 with (line, col) = (1, 0) — `peek` looked at the newline and `backup` reset the column -/
+example : (let l := (Lex.nextToken (Lex.newLexer [97, 98, 10] [])).2; (l.pos, l.line, l.col)) = (2, 1, 0) := by
+  decide +kernel
+
+/-- error tokens do share positions: `"\q"` yields an error token at 1:1 (invalid escape) and then
+the string token at 1:1 -/
+example : (let r := Lex.nextToken (Lex.newLexer [34, 92, 113, 34] []);
+      (r.1.map fun t => (t.code, t.line, t.col), r.2.items.map fun t => (t.code, t.line, t.col))) =
+    (some (Lex.Code.error, 1, 1), [(Lex.Code.string, 1, 1)]) := by decide +kernel
 
 end Examples
 
